@@ -6,6 +6,7 @@ mod shapes;
 mod c19;
 mod c05;
 mod c04;
+mod c03;
 mod c13;
 mod npy;
 mod cli;
@@ -32,6 +33,7 @@ fn eval_line(ctx: &Ctx, line: &str) -> String {
             "c19" => c19::eval(&opn, &a),
             "c05" => c05::eval(&opn, &a),
             "c04" => c04::eval(*ctxp, &opn, &a),
+            "c03" => c03::eval(&opn, &a),
             "c13" => c13::eval(*ctxp, &opn, &a),
             _ => None,
         };
@@ -78,6 +80,7 @@ fn main() {
                 "c19" => c19::gen(&ctx, &mut rng, &mut reqs),
                 "c05" => c05::gen(&ctx, &mut rng, &mut reqs),
                 "c04" => c04::gen(&ctx, &mut rng, &mut reqs),
+                "c03" => c03::gen(&ctx, &mut rng, &mut reqs),
                 "c13" => c13::gen(&ctx, &mut rng, &mut reqs),
                 _ => { eprintln!("unknown property {prop}"); std::process::exit(2); }
             }
